@@ -37,6 +37,24 @@ pub enum Prelude {
     SameBuilderOtherMode,
 }
 
+/// "A forced mask always overrides the selection", also on a builder that has already built with automatic
+/// selection: build(), mask(k), build() must emit mask k (reported and named in the format information)
+pub fn check_forced_after_auto(input: &[u8], e: u8, k: u8) -> Vec<(String, String)> {
+    use crate::subject::{classify, guarded, ECLS, MASKS};
+    let mut b = fast_qr::QRBuilder::new(input.to_vec());
+    let r = guarded(|| {
+        b.ecl(ECLS[e as usize]);
+        let _ = b.build();
+        b.mask(MASKS[k as usize]);
+        b.build()
+    });
+    let out = match r {
+        Ok(r) => classify(r),
+        Err(m) => Outcome::Panic(m),
+    };
+    crate::core::check_symbol_forced_mask(&out, &Opts { mode: None, ecl: Some(e), version: None, mask: Some(k), order: 0 }).into_iter().map(|(key, w)| (key.replace("C11/", ""), w)).collect()
+}
+
 /// the judged automatic build of (input, level e) after a prelude on the same thread
 pub fn check_selection_after(input: &[u8], e: u8, pre: Prelude) -> (Vec<(String, String)>, Option<Selection>, Option<u64>) {
     use crate::subject::{classify, guarded, ECLS, MODES};
@@ -227,6 +245,42 @@ pub fn run(ctx: &Ctx) -> Collector {
     }
     spaces_v.push(spaces::s_cap_families(thorough));
     {
+        // all strings of three symbols over a 40-symbol alphabet (digits, letters of both cases, punctuation, some
+        // bytes): small symbols with little padding, where one module more or less decides the selection
+        let al: Vec<u8> = b"0123456789ABCDEFXYZ $%*+-./:abcxyz,;@\x00\x7f\xff".to_vec();
+        let mut cases = vec![];
+        let levels: &[Option<u8>] = if thorough { &[None, Some(0), Some(1), Some(3)] } else { &[None, Some(0), Some(3)] };
+        for &ecl in levels {
+            for &a in &al {
+                for &b in &al {
+                    for &c in &al {
+                        cases.push(Case::new(vec![a, b, c], Opts { mode: None, ecl, version: None, mask: None, order: 0 }));
+                    }
+                }
+            }
+        }
+        spaces_v.push(Space { name: "S_three".into(), describe: format!("every string of three symbols over a {}-symbol alphabet x levels {:?}, everything else automatic", al.len(), levels), cases, exhaustive: true });
+    }
+    {
+        // version-1 symbols filled to capacity with distinct content (no pad codewords): T00000Z .. T99999Z at level
+        // H (7 bytes) and TICKET00000 .. TICKET99999 at level Q (11 bytes): 100 000 unrelated candidate sets each
+        let mut cases = vec![];
+        let n = if thorough { 100_000 } else { 50_000 };
+        for i in 0..n {
+            cases.push(Case::new(format!("T{:05}Z", i).into_bytes(), Opts { mode: None, ecl: Some(3), version: None, mask: None, order: 0 }));
+            cases.push(Case::new(format!("TICKET{:05}", i).into_bytes(), Opts { mode: None, ecl: Some(2), version: None, mask: None, order: 0 }));
+            // version 2: 11 and 9 bytes at level H (capacity 14)
+            cases.push(Case::new(format!("TICKET{:05}", i).into_bytes(), Opts { mode: None, ecl: Some(3), version: None, mask: None, order: 0 }));
+            cases.push(Case::new(format!("Sg{:05}zQ", i).into_bytes(), Opts { mode: None, ecl: Some(3), version: None, mask: None, order: 0 }));
+            if i % 2 == 0 {
+                // versions 3 and 4 at level H (capacities 24 and 34 bytes)
+                cases.push(Case::new(format!("https://ex.am/t/{:05}", i).into_bytes(), Opts { mode: None, ecl: Some(3), version: None, mask: None, order: 0 }));
+                cases.push(Case::new(format!("https://example.com/order/{:05}/x", i).into_bytes(), Opts { mode: None, ecl: Some(3), version: None, mask: None, order: 0 }));
+            }
+        }
+        spaces_v.push(Space { name: "S_tickets".into(), describe: format!("T00000Z.. (level H, v1), TICKET00000.. (level Q, v1; level H, v2), Sg00000zQ.. (level H, v2), {} each, and half as many 21- and 33-byte URLs at level H (v3, v4): small symbols filled (nearly) to capacity with distinct content", n), cases, exhaustive: true });
+    }
+    {
         let mut sp = spaces::s_antimask(thorough);
         sp.cases.retain(|c| c.opts.mask.is_none());
         spaces_v.push(sp);
@@ -293,6 +347,15 @@ pub fn run(ctx: &Ctx) -> Collector {
                 }
             }
         }
+        // forced after automatic, all 8 masks, a few payloads
+        let fa: Vec<(Vec<u8>, u8, u8)> = [&b"HELLO WORLD"[..], &b"0123456789012"[..], &b"hello, world! 12"[..], &b""[..]].iter().flat_map(|p| (0..8u8).flat_map(move |k| (0..2u8).map(move |e| (p.to_vec(), e * 3, k)))).collect();
+        pool::par_for(fa.len(), |i| {
+            let (input, e, k) = &fa[i];
+            col.eval(Some(crate::util::fnv(format!("fa{:?}", (input, e, k)).as_bytes())));
+            for (key, w) in check_forced_after_auto(input, *e, *k) {
+                col.violation((81, i as u64), format!("C11/{}-after-automatic-build", key), format!("build(), mask({}), build() on one builder: {}", k, w), json!({"kind": "forced-after-auto", "input_hex": crate::util::hex(input), "ecl": e, "mask": k}));
+            }
+        });
         pool::par_for(inst.len(), |i| {
             let (input, e, pre) = &inst[i];
             let (findings, _, digest) = check_selection_after(input, *e, *pre);
